@@ -17,7 +17,7 @@ import (
 // environment deviation; any difference in the consensus transcript is a violation.
 func ReplicaExtra(prop, tier string, shard, of int) ExtraResult {
 	res := ExtraResult{Notes: map[string]interface{}{}, Exhaustive: true}
-	scripts := []*replica.Script{ScriptStorage(false), ScriptStaking(), ScriptTies(), ScriptSidRewards()}
+	scripts := []*replica.Script{ScriptStorage(false), ScriptStaking(), ScriptTies(), ScriptSidRewards(), ScriptGovParams()}
 	if tier == "thorough" {
 		scripts = append(scripts, ScriptStorage(true))
 	}
